@@ -2,7 +2,7 @@
    In the model an object IS its own name in the heap [objs]; keys of Package.Types resolve to
    objects through [tkeys].  "The same object" is therefore: the same key resolves to the same
    heap name for ever (ext), and references stored in entries are heap names. *)
-Require Import Gengo.Base.Str Gengo.Model.Universe Gengo.Proofs.UniverseProofs.
+Require Import Gengo.Base.Str Gengo.Model.Universe Gengo.Proofs.UniverseProofs Gengo.Proofs.ClosureProofs.
 
 (* Universe.Type twice: same object, nothing changes the second time *)
 Theorem C06_lookup_idempotent : forall v2 u n u1 o,
@@ -40,6 +40,26 @@ Theorem C06_references_closed : forall v2 p, (forall t ts, plookup t p <> Some (
   forall fuel u use t u' o, wf u -> walk v2 p fuel u use t = Some (u', o) -> good u' o.
 Proof. exact walk_good. Qed.
 Print Assumptions C06_references_closed.
+
+(* nothing reachable is left as an unresolved placeholder: in the universe built by loading any
+   packages of a program (without type parameters), EVERY name stored in ANY entry -- element,
+   key, underlying type, member, method, parameter, result, receiver -- denotes an entry whose
+   kind is decided; the same holds at every point of every walk (walk_closed) and after any
+   further loads (load_closed) *)
+Theorem C06_universe_closed : forall v2 p fuel pkgs w, (forall t ts, plookup t p <> Some (ts, STypeParam)) ->
+  build v2 p fuel pkgs = Some w -> closed (w_u w) /\ wf (w_u w).
+Proof. exact build_closed. Qed.
+Print Assumptions C06_universe_closed.
+
+Theorem C06_walk_keeps_closed : forall v2 p, (forall t ts, plookup t p <> Some (ts, STypeParam)) ->
+  forall fuel u use t u' o, wf u -> closed u -> walk v2 p fuel u use t = Some (u', o) -> closed u'.
+Proof. exact walk_closed. Qed.
+Print Assumptions C06_walk_keeps_closed.
+
+Theorem C06_loads_keep_closed : forall v2 p fuel, (forall t ts, plookup t p <> Some (ts, STypeParam)) ->
+  forall gs w w', wfc (w_u w) -> fold_left (add_package v2 p fuel) gs (Some w) = Some w' -> wfc (w_u w').
+Proof. exact load_closed. Qed.
+Print Assumptions C06_loads_keep_closed.
 
 (* walking a type that is already there resolves to the existing object and changes nothing *)
 Theorem C06_occurrence_reuses_object : forall v2 p f u use t tstr sh o,
